@@ -270,15 +270,15 @@ func c05r4(c *core.Ctx) {
 		good, n := true, 0
 		core.Instrs(w, func(i ssa.Instruction) {
 			r, ok := i.(*ssa.Return)
-			if !ok || len(r.Results) != 2 {
+			if !ok || len(res(r)) != 2 {
 				return
 			}
 			n++
-			if core.IsNilConst(r.Results[0]) {
+			if core.IsNilConst(res(r)[0]) {
 				return
 			}
-			e0, ok0 := r.Results[0].(*ssa.Extract)
-			e1, ok1 := r.Results[1].(*ssa.Extract)
+			e0, ok0 := res(r)[0].(*ssa.Extract)
+			e1, ok1 := res(r)[1].(*ssa.Extract)
 			if !(ok0 && ok1 && e0.Tuple == e1.Tuple && e0.Index == 0 && e1.Index == 1 && core.IsInvoke(e0.Tuple.(ssa.Instruction), "crypto/cipher.AEAD", "Open")) {
 				good = false
 			}
@@ -407,7 +407,7 @@ func c05r4(c *core.Ctx) {
 			good = false
 		} else if eofOnLength {
 			// end of message: may return the buffer
-		} else if !(core.IsNilConst(ret.Results[0]) && !core.IsNilConst(ret.Results[1])) {
+		} else if !(core.IsNilConst(res(ret)[0]) && !core.IsNilConst(res(ret)[1])) {
 			good = false
 		}
 		if !good {
@@ -444,7 +444,7 @@ func c05r4(c *core.Ctx) {
 			if ret == nil {
 				return
 			}
-			if v, isK := core.ConstInt(ret.Results[0]); !isK || v != 0 {
+			if v, isK := core.ConstInt(res(ret)[0]); !isK || v != 0 {
 				good = false
 			}
 			// the reader result of the failed Decrypt must not be stored as remainder
